@@ -1,6 +1,6 @@
 use pavex::{Blueprint, Response};
-// C09 witness: the error handler for c0's error also asks for T0, the very value c0 failed to build:
-// pavexc panics in codegen ("Failed to find the code fragment") instead of reporting a diagnostic.
+// C09 witness (fixed): the error handler for c0's error also asks for T0, the very value c0 failed to build:
+// pavexc used to panic in codegen ("Failed to find the code fragment"); it must reject with a diagnostic.
 pub struct T0;
 #[derive(Debug)] pub struct E0;
 impl std::fmt::Display for E0 { fn fmt(&self, f: &mut std::fmt::Formatter<'_>) -> std::fmt::Result { write!(f, "E0") } }
